@@ -283,6 +283,12 @@ def hostClass (s : String) : Option (Bool × List Bytes) :=
   else if s == "k" then some (true, [[]])
   else if s == "w" then some (false, [str "w1"])
   else if s == "m" then some (false, [[], str "m1"])
+  -- the `access_logger_names` variable (log_name directive) overrides the host mapping; `log_skip` drops the access log
+  else if s == "v" then some (false, [str "v1", []])
+  else if s == "s" then some (true, [[]])
+  -- the HTTP->HTTPS redirect server of automatic HTTPS: a clone of the last qualifying server's log configuration
+  else if s == "r" then some (false, [[]])
+  else if s == "q" then some (false, [str "rb"])
   else none
 
 def parseRoute (s : String) : Option Route :=
